@@ -14,6 +14,8 @@ TRUSTED = ['rustc MIR of the emitted code']
 def run(ctx):
     rep = Report('C13')
     gen_thrift.keep_unknown(rep)
+    if ctx['tier'] == 'thorough':
+        gen_thrift.keep_unknown(rep, split=True)   # same rules on the split-file output
     rep.programs = 7
     rep.disagreements_checked = rep.obligations
     rep.floor('G13.a', 35)
